@@ -1,11 +1,21 @@
 #!/bin/sh
 # Build every harness configuration once (offline). ./check rebuilds incrementally afterwards.
 set -e
-cd "$(dirname "$0")/../engine"
+ROOT=$(cd "$(dirname "$0")/.." && pwd)
+cd "$ROOT/engine"
 export CARGO_NET_OFFLINE=true
-export RUSTFLAGS="${RUSTFLAGS:+$RUSTFLAGS }--cfg zbus_verif"
-cargo build --release --offline -p h_zvariant
-cargo build --release --offline -p h_zvariant --features gvariant
-cargo build --release --offline -p h_zvariant --features option-as-array
-cargo build --release --offline -p h_zvariant --features gvariant,option-as-array
-if [ -d h_zbus ]; then cargo build --release --offline -p h_zbus; fi
+(
+  export RUSTFLAGS="${RUSTFLAGS:+$RUSTFLAGS }--cfg zbus_verif"
+  cargo build --release --offline -p h_zvariant
+  cargo build --release --offline -p h_zvariant --features gvariant
+  cargo build --release --offline -p h_zvariant --features option-as-array
+  cargo build --release --offline -p h_zvariant --features gvariant,option-as-array
+  cargo build --release --offline -p h_zbus
+  if [ -d h_prog ]; then cargo build --release --offline -p h_prog; fi
+)
+# warm the feature-matrix target dir (C35) so that its quick tier only pays for the differences
+cd "$ROOT"
+unset RUSTFLAGS
+cargo check --offline --locked --quiet --manifest-path /repo/zbus/Cargo.toml --target-dir engine/target-feat || true
+cargo check --offline --locked --quiet --manifest-path /repo/zbus/Cargo.toml --no-default-features --features tokio --target-dir engine/target-feat || true
+cargo check --offline --locked --quiet --manifest-path /repo/zvariant/Cargo.toml --all-features --target-dir engine/target-feat 2>/dev/null || true
